@@ -6,7 +6,9 @@ FIX_COMMITS = ['c5b9684 (C05 DataReader EOD==0)', 'c3bb002 (C17 ESC prefix on 1x
                '23d724d + 0580462 (C03/C01 delivered-index history, re-queue before marks stored)', '866c7e1 (C01 dict shadowing)',
                '14c3a79 + f3319b7 (C12 flush)', '8c3f97c (C12 schedule list mutated during blocking spawn)', 'b06082a (C15 redis load)', '4831a3d (C15 cloud attempts)',
                '927adda (C15/C03 DictStorage over shelve)', 'bd8a6c6 (C03 active until removed)',
-               '6d62944 (C02 edges results[0])', '476db38 (C02 ProxyQueue per-recipient failures)']
+               '6d62944 (C02 edges results[0])', '476db38 (C02 ProxyQueue per-recipient failures)',
+               '044506a + a782ee8 (C11 pipe relays)', '6c9af79 (C11/C17 invalid reply code)', '511778e (C11 mixed-class rejected recipients)',
+               '19de51f (C11 HttpRelay never sets a result)']
 
 ENGINES = [
     {'name': 'runner', 'path': 'vf/runner.py', 'serves_properties': [],
@@ -22,6 +24,8 @@ ENGINES = [
      'kind_free_text': 'edges over Queue+FaultStore / ProxyQueue+scripted relay with an event log and harness-gated slow writes'},
     {'name': 'crash-point-snapshots', 'path': 'vf/props/c04.py', 'serves_properties': ['C04'],
      'kind_free_text': 'recording proxies on slimta.diskstorage.{os,mkstemp,aio_write} that copy the directories before every file-system effect'},
+    {'name': 'scripted-downstreams', 'path': 'vf/peers.py', 'serves_properties': ['C11'],
+     'kind_free_text': 'StagePeer: in-memory reactive SMTP/LMTP server answering each protocol stage per script and recording what it accepted; HTTP peer and resolver stub in vf/props/c11_http.py'},
     {'name': 'reactive-peer', 'path': 'vf/props/c10.py', 'serves_properties': ['C10'],
      'kind_free_text': 'in-memory downstream that parses what the client sends and only then makes the scripted replies readable; a read when nothing is owed raises'},
     {'name': 'scripted-socket', 'path': 'vf/transport.py', 'serves_properties': ['C05', 'C17'],
@@ -172,6 +176,17 @@ CHECKS['C04'] = {
             'sender, content, outstanding recipients and attempts of the pre- or post-state of the operation in flight, and a fresh Queue must re-attempt it',
     'design_ref': 'DESIGN.md section 2 C04',
     'note': 'process death between atomic file-system effects (no power-loss / fsync model); sequential operations',
+}
+CHECKS['C11'] = {
+    'engine': 'scripted-downstreams',
+    'level': 'fault_enumeration',
+    'technique': 'fault enumeration + property-based testing: real relays against scripted downstreams (in-memory SMTP/LMTP peer, generated /bin/sh delivery programs, raw HTTP peer, stub resolver); reference decision from the script',
+    'text': 'every single fault (stage x outcome incl. malformed line, out-of-range code, disconnect, reset) x PIPELINING x 1..3 recipients x first/reused '
+            'connection for StaticSmtpRelay/StaticLmtpRelay, random multi-fault scripts, pipe relays over exit status x output shape x per_recipient, HttpRelay over '
+            'status x reply header x connection faults, MxSmtpRelay over resolver answers: a recipient is reported delivered only if nothing applicable went wrong and '
+            'the peer recorded acceptance; failure classes follow 4xx/5xx; the attempt always ends with a result or a RelayError raised (never returned, never another type, never a hang)',
+    'design_ref': 'DESIGN.md section 2 C11',
+    'note': 'STARTTLS over a stub context (same channel); HTTP error without reply header is gray; reference decision written from the property statement',
 }
 
 NOT_APPLICABLE = {}
